@@ -441,6 +441,9 @@ fn parts(ctx: &Ctx) -> Vec<PartSpec> {
         for s in ["S1", "S2", "S2b", "S3", "S3b", "S3c", "S4", "S4h", "S5", "S5h", "S5f", "S5g", "S6"] {
             v.push(PartSpec::new(&format!("{}-pb2", s), json!({"scn": s, "pb": 2})).budget(120.0));
         }
+        for s in ["S1", "S2", "S3b"] {
+            v.push(PartSpec::new(&format!("{}-impatient-waits-pb1", s), json!({"scn": s, "pb": 1, "impatient": 24})).budget(120.0));
+        }
         // E2: C11 memory model (incl. the epoch reclamation's own atomics), 2 threads at bound 1, 3 threads at bound 0
         for (s, pb) in [("push_clear", 1), ("push_snap", 1), ("handover_clear", 1), ("full_push_clear", 1), ("handover_push_push", 1), ("push_clear_snap", 0), ("push_clear_clear", 0), ("full_clear_clear", 1), ("push_push_clear", 0), ("handover_push_push_clear", 0)] {
             v.push(PartSpec::new(&format!("loom-{}-pb{}", s, pb), json!({"loom": s, "pb": pb})).budget(160.0));
@@ -455,6 +458,9 @@ fn parts(ctx: &Ctx) -> Vec<PartSpec> {
         for s in ["S1", "S3", "S2"] {
             v.push(PartSpec::new(&format!("{}-pb4", s), json!({"scn": s, "pb": 4})).budget(1500.0));
         }
+        for s in ["S1", "S2", "S2b", "S3", "S3b", "S5"] {
+            v.push(PartSpec::new(&format!("{}-impatient-waits-pb2", s), json!({"scn": s, "pb": 2, "impatient": 24})).budget(1500.0));
+        }
     }
     v
 }
@@ -467,6 +473,11 @@ fn run(ctx: &Ctx, spec: &PartSpec) -> PartResult {
     }
     let scn = spec.arg["scn"].as_str().unwrap_or("S1").to_string();
     let pb = spec.arg["pb"].as_u64().unwrap_or(2) as usize;
+    // impatient waits: a waiting reader's first 24 retries return at once (a spinning thread keeps running whether or
+    // not the writer it waits for does), so a wait that gives up after a bounded number of retries reaches its bound
+    if let Some(k) = spec.arg["impatient"].as_u64() {
+        vsched::IMPATIENT.store(k as u32, std::sync::atomic::Ordering::Relaxed);
+    }
     let cfg = Cfg { max_bound: pb, horizon: 20000 };
     match scn.as_str() {
         "S4" => vsched::explore(&s4_scenario(0), &cfg, ctx, &mut res),
